@@ -218,7 +218,29 @@ func GenWorld(r *hlib.Rand, maxRules int) *World {
 			} else {
 				a = RandAddr(r, mine.Addr().Is6())
 			}
-			c.CNets = append(c.CNets, netip.PrefixFrom(a, mine.Bits()))
+			bits := mine.Bits()
+			// the peer's certified prefix need not have this node's mask: supernets of the node's network (with
+			// the address inside or outside it), subnets, and prefixes that merely overlap
+			switch r.Intn(6) {
+			case 0: // shorter mask covering this node's network, the address outside it
+				if mine.Bits() > 1 {
+					bits = r.Range(0, mine.Bits()-1)
+					sup := netip.PrefixFrom(mine.Addr(), bits).Masked()
+					for k := 0; k < 8; k++ {
+						a = AddrIn(r, sup)
+						if !mine.Contains(a) {
+							break
+						}
+					}
+				}
+			case 1: // shorter mask, the address wherever it was drawn
+				if mine.Bits() > 1 {
+					bits = r.Range(0, mine.Bits()-1)
+				}
+			case 2: // longer mask
+				bits = r.Range(mine.Bits(), a.BitLen())
+			}
+			c.CNets = append(c.CNets, netip.PrefixFrom(a, bits))
 		}
 		if r.Chance(2, 5) {
 			for j := r.Range(1, 2); j > 0; j-- {
